@@ -3,7 +3,7 @@ import os; sys.path.insert(0,'/verif'); sys.path.insert(0, os.environ.get('VERIF
 from vlib import core
 pid=sys.argv[1]; tier=sys.argv[2] if len(sys.argv)>2 else 'quick'
 mod=importlib.import_module('harness.'+pid.lower())
-ctx=core.Ctx(pid,tier,0)
+ctx=core.Ctx(pid,tier,int(os.environ.get("VERIF_SEED","0")))
 import os
 exe='/verif/ocaml/build/%s/runner'%pid
 if not os.path.exists(exe):
